@@ -144,6 +144,11 @@ func writeReplay(dir, prop string, r *funcResult, o *Obligation) replayResult {
 	doc.HarnessPkg = pkg
 	if h != "" && o.Result == "sat" {
 		doc.Harness = h
+	} else if o.Result == "sat" && pkg != "" {
+		// no hand-written harness: generate one if the function's inputs can be rebuilt from the model
+		if g := genHarness(o, &doc, dir); g != "" {
+			doc.Harness = g
+		}
 	}
 	b, _ := json.MarshalIndent(doc, "", " ")
 	_ = os.WriteFile(path, b, 0o644)
